@@ -3,7 +3,7 @@ import csv as pycsv
 import io
 from fractions import Fraction
 from .. import spec
-from ..gen import G, LAYOUTS, fmt_date_layout
+from ..gen import G, LAYOUTS, fmt_date_layout, Qty
 from ..common import run_apps, app, out_of, sig
 from ..core import unhx
 
@@ -39,6 +39,27 @@ def gen(g, count):
         layout = r.choice(LAYOUTS) if n % 2 else '2006/01/02'
         log = g.log(book=[], exact=True, unusual=0.3, notes=0.5, repeat=0.4)
         hard = False
+        decimal = (n % 5 == 1)
+        if decimal:
+            # quantities that need all of a float64: large amounts with cents, integers above 2^24, three decimals next to a
+            # rounding tie.  One entry per food and day, so that the expected value is the float64 of the literal itself.
+            log2 = []
+            for d, ents, ns in log:
+                seen, e2 = set(), []
+                for f, q in ents:
+                    if f in seen:
+                        continue
+                    seen.add(f)
+                    lit = r.choice([
+                        lambda: '%d.%02d' % (r.randint(131072, 9999999), r.randint(1, 99)),
+                        lambda: str(2 ** 24 + 1 + 2 * r.randint(0, 500)),
+                        lambda: r.choice(['1.115', '2.675', '1.005', '0.125', '0.375', '8388609.5', '99999999.99', '1234567.89', '-803000.01', '0.005', '0.015', '1e-3', '33554433']),
+                        lambda: '%d.%03d' % (r.randint(0, 99), r.randint(0, 999)),
+                        lambda: '-%d.%02d' % (r.randint(131072, 999999), r.randint(1, 99)),
+                    ])()
+                    e2.append((f, Qty(lit, Fraction(float(lit)), False)))
+                log2.append((d, e2, ns))
+            log = log2
         if n % 3 == 0:
             log = [(d, ents, ns + [hard_note(g) for _ in range(r.randint(0, 2))]) for d, ents, ns in log]
             hard = True
@@ -59,7 +80,8 @@ def gen(g, count):
         if days and r.random() < 0.3:
             sflags['end'] = fmt_date_layout(r.choice(days), layout)
         gflags['today'] = fmt_date_layout(__import__('datetime').date(2021, 1, 28), layout)
-        c = app(['print'], {b'log.yaml': src, b'food.yaml': b''}, g=gflags, s=sflags, kind='print', env=env, cfg=cfg, disk=(cfg is not None))
+        # (the model computes with the exact decimal value: for literals that are not binary fractions it is compared up to one unit of the last digit; the oracle uses the float64)
+        c = app(['print'], {b'log.yaml': src, b'food.yaml': b''}, g=gflags, s=sflags, kind='print', env=env, cfg=cfg, disk=(cfg is not None), exact=not decimal)
         c.meta.update({'log': log, 'layout': layout, 'stage': 1, 'hard': hard, 'format_source': source})
         cases.append(c)
     return cases
